@@ -797,6 +797,7 @@ def readE : PE → Option JsExpr
     else none
   | .unary .not (.paren a) => (match readE a with | some ja => some (.not ja) | none => none)
   | .unary .neg (.num v) => if v == 0 then none else some (.num (-(v : Int)))
+  -- the bare `a != null` (the text of isNonnull before soyjs a5155c6; now `(a != null)`, below)
   | .bin .ne a .null => (match readE a with | some ja => some (.call1 .nonNull ja) | none => none)
   | .cond (.paren (.bin .eq g .null)) .null r =>
     -- `(g == null) ? null : r`
@@ -810,6 +811,7 @@ def readE : PE → Option JsExpr
         (match jsOpOf op, readE a, readE b with
           | some jo, some ja, some jb => some (.bin jo ja jb)
           | _, _, _ => none)
+      | .bin .ne a .null => (match readE a with | some ja => some (.call1 .nonNull ja) | none => none)   -- `(a != null)`, soyjs a5155c6
       | .bin .eq (.ident idx) (.num v) => if v == 0 then some (.loopFirst idx) else none           -- `(idx == 0)`
       | .bin .eq (.ident idx) (.bin .sub (.ident lim) (.num v)) =>                                  -- `(idx == lim - 1)`
         if v == 1 then some (.loopLastEach idx lim) else none
